@@ -58,7 +58,7 @@ func TestConcurrent(t *testing.T) {
 	rec := kit.NewRecorder(env, "sweep-concurrent")
 	defer func() { rec.Flush(!t.Failed()) }()
 	vs, us := BoundaryInts()
-	rounds := env.Pick(30, 300)
+	rounds := env.Pick(800, 8000)
 	var failed atomic.Pointer[Case]
 	var failMsg atomic.Pointer[string]
 	var evals atomic.Int64
